@@ -140,6 +140,13 @@ struct Config {
 /// position, and whatever a provider or the lattice builder carries over from an earlier position becomes visible
 const SEGMENTS: u32 = 100;
 
+/// class lengths above 80 are generated only while this holds: the run first probes the real plugin with a large but
+/// harmless length (escalation); if the number of candidates grows with `length` the huge values are not tried at all
+static ALLOW_HUGE: std::sync::atomic::AtomicBool = std::sync::atomic::AtomicBool::new(true);
+fn allow_huge() -> bool {
+    ALLOW_HUGE.load(std::sync::atomic::Ordering::Relaxed)
+}
+
 fn bits(cs: &[usize]) -> u32 {
     cs.iter().fold(0, |a, c| a | CLASSES[*c].1)
 }
@@ -302,7 +309,12 @@ fn gen_config(seed: u64, work: &PathBuf, directed: u32) -> Config {
             3..=4 => 1,
             5 => 2,
             6 => 3,
-            _ => 1 + rng.below(80) as u32,
+            _ => match rng.below(8) {
+                // a u32: nothing limits it when the definition is loaded
+                0 => u32::MAX,
+                1 => 3_000_000,
+                _ => 1 + rng.below(80) as u32,
+            },
         };
         infos.push(ClassInfo { class: *k, invoke: rng.chance(1, 2), group: rng.chance(1, 2), length });
     }
@@ -324,7 +336,7 @@ fn gen_config(seed: u64, work: &PathBuf, directed: u32) -> Config {
         unks.clear();
         for k in [0usize, 1, 2, 3, 4, 5, 6, 7, 8, 9, 10] {
             if directed == SEGMENTS {
-                infos.push(ClassInfo { class: k, invoke: rng.chance(2, 3), group: rng.chance(3, 4), length: if rng.chance(1, 12) { 70 } else { rng.below(4) as u32 } });
+                infos.push(ClassInfo { class: k, invoke: rng.chance(2, 3), group: rng.chance(3, 4), length: if rng.chance(1, 12) { [70u32, 3_000_000, u32::MAX][rng.below(3) as usize] } else { rng.below(4) as u32 } });
             } else {
                 infos.push(ClassInfo { class: k, invoke: k == 4 || k == 5, group: true, length: if k == 2 { 3 } else { 0 } });
             }
@@ -336,6 +348,11 @@ fn gen_config(seed: u64, work: &PathBuf, directed: u32) -> Config {
         let i = rng.below(unks.len() as u64) as usize;
         let j = rng.below(unks.len() as u64) as usize;
         unks.swap(i, j);
+    }
+    if !allow_huge() {
+        for ci in infos.iter_mut() {
+            ci.length = ci.length.min(80);
+        }
     }
     let mut char_def = String::from("# generated by the C13 harness\n");
     for ci in &infos {
@@ -670,17 +687,94 @@ struct CaseOut {
     tags: Vec<String>,
 }
 
+/// Objects that live across the cases of one configuration, the way an application uses the library: ONE InputBuffer
+/// (reset / push / start_build / build), ONE StatefulTokenizer and ONE MorphemeList that takes the results out with
+/// collect_results (which swaps the two input buffers, so a tokenizer sees again the buffer of its analysis k-2).
+/// Every step is compared with the model (the Coq term is made from what the reused objects report) and with new objects.
+struct Session<'d> {
+    buf: InputBuffer,
+    tok: StatefulTokenizer<&'d JapaneseDictionary>,
+    ml: MorphemeList<&'d JapaneseDictionary>,
+    history: Vec<(String, u64)>,
+}
+impl<'d> Session<'d> {
+    fn new(dict: &'d JapaneseDictionary) -> Session<'d> {
+        Session { buf: InputBuffer::new(), tok: StatefulTokenizer::create(dict, false, Mode::C), ml: MorphemeList::empty(dict), history: vec![] }
+    }
+}
+
+fn lattice_of(dict: &JapaneseDictionary, l: &sudachi::analysis::lattice::Lattice, len: usize) -> Vec<Vec<ONode>> {
+    let mut per: Vec<Vec<ONode>> = vec![vec![]; len];
+    for end in 0..l.verif_size() {
+        for vn in l.verif_nodes(end) {
+            let oov = vn.word_id >> 28 == 0xF;
+            if vn.begin >= len {
+                continue;
+            }
+            per[vn.begin].push(ONode {
+                begin: vn.begin,
+                end: vn.end,
+                left: vn.left_id,
+                right: vn.right_id,
+                cost: vn.cost,
+                pos: if oov { pos_index(dict, vn.word_id & 0x0FFF_FFFF) } else { 0 },
+                dict: !oov,
+            });
+        }
+    }
+    per
+}
+
+/// a text of n single-character class runs: two characters without a common class, alternating
+fn singles_text(rng: &mut Rng, cfg: &Config, n: usize) -> Option<String> {
+    let bases: Vec<char> = ALPHABET.iter().filter(|x| !x.2).map(|x| x.0).collect();
+    for _ in 0..20 {
+        let (x, y) = (*rng.pick(&bases), *rng.pick(&bases));
+        let (bx, by) = (bits(&cfg.chars[&x]).max(1), bits(&cfg.chars[&y]).max(1));
+        if bx & by == 0 {
+            return Some((0..n).map(|i| if i % 2 == 0 { x } else { y }).collect());
+        }
+    }
+    None
+}
+
 fn run_case(cfg: &Config, text: &str, rng: &mut Rng, verbose: bool) -> CaseOut {
+    run_case_in(cfg, text, rng, verbose, None)
+}
+
+fn run_case_in<'a>(cfg: &'a Config, text: &str, rng: &mut Rng, verbose: bool, session: Option<&mut Session<'a>>) -> CaseOut {
     let dict = cfg.dict.as_ref().unwrap();
+    let (sbuf, stok, sml) = match session {
+        Some(s) => (Some(&mut s.buf), Some(&mut s.tok), Some(&mut s.ml)),
+        None => (None, None, None),
+    };
     let mut fails = vec![];
     let mut tags = vec![];
     let chars: Vec<char> = text.chars().collect();
     let len = chars.len();
     // ---------------- buffer level
-    let mut buf = InputBuffer::from(text);
-    buf.build(dict.grammar()).unwrap();
+    let mut fresh_buf = InputBuffer::from(text);
+    fresh_buf.build(dict.grammar()).unwrap();
+    let reused = sbuf.is_some();
+    let buf: &InputBuffer = match sbuf {
+        Some(b) => {
+            b.reset().push_str(text);
+            b.start_build().unwrap();
+            b.build(dict.grammar()).unwrap();
+            b
+        }
+        None => &fresh_buf,
+    };
     let cats: Vec<u32> = (0..len).map(|i| buf.cat_at_char(i).bits()).collect();
     let conts: Vec<usize> = (0..len).map(|i| buf.cat_continuous_len(i)).collect();
+    if reused {
+        let fc: Vec<usize> = (0..len).map(|i| fresh_buf.cat_continuous_len(i)).collect();
+        let fb: Vec<bool> = (0..len).map(|i| fresh_buf.can_bow(fresh_buf.to_curr_byte_idx(i))).collect();
+        let rb: Vec<bool> = (0..len).map(|i| buf.can_bow(buf.to_curr_byte_idx(i))).collect();
+        if fc != conts || fb != rb {
+            fails.push(format!("reused InputBuffer reports cat_continuous_len {:?} / can_bow {:?}, a new one {:?} / {:?}", conts, rb, fc, fb));
+        }
+    }
     let mut bows = vec![];
     for i in 0..len {
         let b0 = buf.to_curr_byte_idx(i);
@@ -740,7 +834,7 @@ fn run_case(cfg: &Config, text: &str, rng: &mut Rng, verbose: bool) -> CaseOut {
     for p in &cfg.provs {
         prov_terms.push(match p {
             Prov::Mecab => {
-                let cis = clist(cfg.infos.iter().map(|ci| format!("mkCI {} {} {} {}", cn(CLASSES[ci.class].1), cbool(ci.invoke), cbool(ci.group), cnat(ci.length as usize))));
+                let cis = clist(cfg.infos.iter().map(|ci| format!("mkCI {} {} {} {}", cn(CLASSES[ci.class].1), cbool(ci.invoke), cbool(ci.group), cn(ci.length))));
                 // HashMap<CategoryType, Vec<OOV>>: lines of one class in file order
                 let mut groups: Vec<(usize, Vec<&OovDef>)> = vec![];
                 for (k, d) in &cfg.unks {
@@ -817,7 +911,7 @@ fn run_case(cfg: &Config, text: &str, rng: &mut Rng, verbose: bool) -> CaseOut {
                 }
                 let mut result: Vec<Node> = pre_nodes.iter().map(|e| Node::new(off as u16, *e as u16, 0, 0, 0, WordId::new(0, 0))).collect();
                 let npre = result.len();
-                let r = catch(|| p.provide_oov(&buf, off, other, &mut result).map_err(|e| format!("{:?}", e)));
+                let r = catch(|| p.provide_oov(buf, off, other, &mut result).map_err(|e| format!("{:?}", e)));
                 let out: Result<Result<Vec<ONode>, String>, String> = match r {
                     Ok(Ok(n)) => {
                         if n != result.len() - npre {
@@ -831,6 +925,12 @@ fn run_case(cfg: &Config, text: &str, rng: &mut Rng, verbose: bool) -> CaseOut {
                 if let Ok(Ok(v)) = &out {
                     if !v.is_empty() {
                         ncalls_nonempty += 1;
+                    }
+                    // whatever `length` says, a class yields at most one candidate per length of the run and template
+                    if let Prov::Mecab = cfg.provs[pi] {
+                        if v.len() > conts[off].max(1) * cfg.unks.len() {
+                            fails.push(format!("MeCab provider at {}: {} candidates for a class run of {} characters and {} unk.def lines", off, v.len(), conts[off], cfg.unks.len()));
+                        }
                     }
                     for n in v {
                         if n.pos == usize::MAX {
@@ -872,32 +972,45 @@ fn run_case(cfg: &Config, text: &str, rng: &mut Rng, verbose: bool) -> CaseOut {
             v.into_iter().map(|x| x.0).collect()
         })
         .collect();
-    let mut tok = StatefulTokenizer::create(dict, false, Mode::C);
+    let mut fresh_tok = StatefulTokenizer::create(dict, false, Mode::C);
+    let mut fresh_ml = MorphemeList::empty(dict);
+    let (tok, ml): (&mut StatefulTokenizer<&JapaneseDictionary>, &mut MorphemeList<&JapaneseDictionary>) = match (stok, sml) {
+        (Some(t), Some(m)) => (t, m),
+        _ => (&mut fresh_tok, &mut fresh_ml),
+    };
     tok.reset().push_str(text);
     let tr = catch(|| tok.do_tokenize().map_err(|e| format!("{:?}", e)));
     let lat: Result<Result<Vec<Vec<ONode>>, String>, String> = match &tr {
-        Ok(Ok(())) => {
-            let l = tok.verif_lattice();
-            let mut per: Vec<Vec<ONode>> = vec![vec![]; len];
-            for end in 0..l.verif_size() {
-                for vn in l.verif_nodes(end) {
-                    let oov = vn.word_id >> 28 == 0xF;
-                    per[vn.begin].push(ONode {
-                        begin: vn.begin,
-                        end: vn.end,
-                        left: vn.left_id,
-                        right: vn.right_id,
-                        cost: vn.cost,
-                        pos: if oov { pos_index(dict, vn.word_id & 0x0FFF_FFFF) } else { 0 },
-                        dict: !oov,
-                    });
-                }
-            }
-            Ok(Ok(per))
-        }
+        Ok(Ok(())) => Ok(Ok(lattice_of(dict, tok.verif_lattice(), len))),
         Ok(Err(e)) => Ok(Err(e.clone())),
         Err(e) => Err(e.clone()),
     };
+    if reused {
+        // the same text through a new tokenizer
+        let mut nt = StatefulTokenizer::create(dict, false, Mode::C);
+        nt.reset().push_str(text);
+        let ntr = catch(|| nt.do_tokenize().map_err(|e| format!("{:?}", e)));
+        let nlat: Result<Result<Vec<Vec<ONode>>, String>, String> = match &ntr {
+            Ok(Ok(())) => Ok(Ok(lattice_of(dict, nt.verif_lattice(), len))),
+            Ok(Err(e)) => Ok(Err(e.clone())),
+            Err(e) => Err(e.clone()),
+        };
+        if nlat != lat {
+            let show = |l: &Result<Result<Vec<Vec<ONode>>, String>, String>| match l {
+                Ok(Ok(per)) => format!("{:?}", per.iter().map(|v| v.iter().map(|n| (n.begin, n.end)).collect::<Vec<_>>()).collect::<Vec<_>>()),
+                other => format!("{:?}", other.as_ref().map(|r| r.as_ref().map(|_| ()))),
+            };
+            fails.push(format!("reused tokenizer builds the lattice {} but a new tokenizer {}", show(&lat), show(&nlat)));
+        }
+        if let Ok(Ok(())) = &tr {
+            let ti = tok.verif_input();
+            let tc: Vec<usize> = (0..len).map(|i| ti.cat_continuous_len(i)).collect();
+            if tc != spec {
+                fails.push(format!("the reused tokenizer's buffer reports cat_continuous_len {:?}, the class runs of this text give {:?}", tc, spec));
+            }
+        }
+        tags.push("reused_objects_step".into());
+    }
     match &lat {
         Ok(Ok(per)) => {
             if per.iter().flatten().any(|n| !n.dict) {
@@ -933,8 +1046,7 @@ fn run_case(cfg: &Config, text: &str, rng: &mut Rng, verbose: bool) -> CaseOut {
                 }
             }
             // OOV morphemes of the best path: is_oov, dictionary -1, the configured part of speech, the text as all forms
-            let mut ml = MorphemeList::empty(dict);
-            if ml.collect_results(&mut tok).is_ok() {
+            if ml.collect_results(tok).is_ok() {
                 for m in ml.iter() {
                     morph_terms.push(morph_term(&m));
                     if m.is_oov() {
@@ -988,7 +1100,7 @@ fn run_case(cfg: &Config, text: &str, rng: &mut Rng, verbose: bool) -> CaseOut {
         cres(&lat, |per| clist(per.iter().map(|v| clist(v.iter().map(cnode)))))
     );
     let desc = json!({"kind": "c13", "config_seed": cfg.seed, "text": text, "char_def": cfg.char_def, "unk_def": cfg.unk_def,
-                      "oovProviderPlugin": cfg.plugins, "words": cfg.words});
+                      "oovProviderPlugin": cfg.plugins, "words": cfg.words, "huge_lengths": allow_huge()});
     CaseOut { term, desc, nontrivial: multi || ncalls_nonempty > 0, fails, tags }
 }
 
@@ -1005,13 +1117,81 @@ fn emit(sink: &mut Sink, mut desc: Value, extra: Value, out: CaseOut) {
     }
 }
 
+/// Bounded reproduction of the MeCab length-loop defect (env C13_REPRO_LENGTH=<n>): char.def header `ALPHA 1 0 <n>`, text "a";
+/// prints the number of candidates the real plugin pushes at offset 0 and the time it takes.
+fn repro_length_loop(args: &Args, n: u64) -> usize {
+    let mut count_a = 0;
+    let dir = args.work.join(format!("c13res-{}", std::process::id()));
+    std::fs::create_dir_all(&dir).unwrap();
+    std::fs::write(dir.join("char.def"), format!("DEFAULT 0 1 0\nALPHA 1 0 {}\n0x0061..0x007A ALPHA\n", n)).unwrap();
+    std::fs::write(dir.join("unk.def"), "DEFAULT,0,0,100,名詞,普通名詞,一般,*,*,*\nALPHA,0,0,100,名詞,普通名詞,一般,*,*,*\n").unwrap();
+    let cj = json!({"path": dir.to_string_lossy(), "characterDefinitionFile": "char.def",
+        "oovProviderPlugin": [{"class": "com.worksap.nlp.sudachi.MeCabOovPlugin", "charDef": "char.def", "unkDef": "unk.def", "userPOS": "allow"}]});
+    let mut b = DictBuilder::new_system();
+    b.read_conn("1 1\n0 0 0\n".as_bytes()).unwrap();
+    b.read_lexicon("た,0,0,100,た,名詞,普通名詞,一般,*,*,*,タ,た,*,A,*,*,*,*\n".as_bytes()).unwrap();
+    b.resolve().unwrap();
+    let mut bytes = Vec::new();
+    b.compile(&mut bytes).unwrap();
+    let c = ConfigBuilder::from_bytes(cj.to_string().as_bytes()).unwrap().build();
+    let dict = JapaneseDictionary::from_cfg_storage(&c, SudachiDicData::new(Storage::Owned(bytes))).expect("configuration loads");
+    for text in ["a", "ab京"] {
+        let mut buf = InputBuffer::from(text);
+        buf.build(dict.grammar()).unwrap();
+        let mut result: Vec<Node> = vec![];
+        let t0 = std::time::Instant::now();
+        let r = dict.oov_provider_plugins()[0].provide_oov(&buf, 0, CreatedWords::empty(), &mut result);
+        let mut ends: Vec<usize> = result.iter().map(|n| n.end()).collect();
+        ends.dedup();
+        if text == "a" {
+            count_a = result.len();
+        }
+        println!(
+            "length={} text={:?}: provide_oov at offset 0 -> {:?}, {} candidates ({} bytes of Node), distinct ends {:?}, {:.3} s",
+            n,
+            text,
+            r.map_err(|e| format!("{:?}", e)),
+            result.len(),
+            result.len() * std::mem::size_of::<Node>(),
+            ends,
+            t0.elapsed().as_secs_f64()
+        );
+    }
+    cleanup(args);
+    count_a
+}
+
+/// escalation probe (see ALLOW_HUGE): one class of length 3000000, text "a" -- one candidate is prescribed
+fn length_probe(sink: &mut Sink, args: &Args) {
+    let n = repro_length_loop(args, 3_000_000);
+    let id = sink.case_rust_only(json!({"kind": "c13-length-probe", "char_def": "ALPHA 1 0 3000000", "text": "a"}), true);
+    sink.tag("length_probe");
+    if n > 16 {
+        ALLOW_HUGE.store(false, std::sync::atomic::Ordering::Relaxed);
+        sink.fail(id, &format!("char.def `ALPHA 1 0 3000000`, text \"a\": MeCabOovPlugin pushes {} candidates at offset 0 (1 prescribed; the count grows with `length`, 4294967295 would exhaust memory)", n), "");
+    }
+}
+
 pub fn run(args: &Args) {
+    if let Ok(v) = std::env::var("C13_REPRO_LENGTH") {
+        let _ = repro_length_loop(args, v.parse().expect("C13_REPRO_LENGTH=<u32>"));
+        return;
+    }
     let mut sink = Sink::new("C13", &args.out, &["Model.Oov"], args.seed, &args.tier);
     sink.shard_size = 40;
-    sink.rule("generated char.def (24 code points incl. combining marks, skin-tone modifier, VS16, ZWJ, 4-byte emoji; natural or random class sets with several classes per character, class ALL, NOOOVBOW, NOOOVBOW2; classes without definition) x unk.def (0..3 definitions per class, invoke/group/length 0..80) x 1..3 providers in random order (MeCab, Simple, Regex with strict/relaxed boundaries, max length, debug, patterns with backtracking / alternation / empty match) x small random lexicon x texts (dictionary words, class runs, base+marks, lone marks, runs > 64); plus a 'segments' stream (every 5th configuration): the text is 2-4 runs of distinct characters, one or more of 58-88 characters, and 3-5 Regex providers (maxLength 100/400, strict/relaxed) each match a contiguous range of those runs, often ending where another pattern ends, mixed with MeCab/Simple -- so long candidates (>= 64, CreatedWords answers Maybe) with different ends start at one position and candidates from different positions share an end; each case observes the built InputBuffer, every provider through the trait at all (or sampled) offsets with several CreatedWords, and the lattice of a real tokenization; non-trivial = the text has a character with several classes or some provider call produced a candidate; distinct by generated Coq term");
+    sink.rule("generated char.def (24 code points incl. combining marks, skin-tone modifier, VS16, ZWJ, 4-byte emoji; natural or random class sets with several classes per character, class ALL, NOOOVBOW, NOOOVBOW2; classes without definition) x unk.def (0..3 definitions per class, invoke/group/length 0..80) x 1..3 providers in random order (MeCab, Simple, Regex with strict/relaxed boundaries, max length, debug, patterns with backtracking / alternation / empty match) x small random lexicon x texts (dictionary words, class runs, base+marks, lone marks, runs > 64); the 5 texts of a configuration form a SESSION over one reused InputBuffer, one StatefulTokenizer and one MorphemeList (collect_results), with single-character-run texts over the positions of the text two steps earlier and prefixes of the previous text, each step compared with the model and with new objects; class lengths include 3000000 and 4294967295; plus a 'segments' stream (every 5th configuration): the text is 2-4 runs of distinct characters, one or more of 58-88 characters, and 3-5 Regex providers (maxLength 100/400, strict/relaxed) each match a contiguous range of those runs, often ending where another pattern ends, mixed with MeCab/Simple -- so long candidates (>= 64, CreatedWords answers Maybe) with different ends start at one position and candidates from different positions share an end; each case observes the built InputBuffer, every provider through the trait at all (or sampled) offsets with several CreatedWords, and the lattice of a real tokenization; non-trivial = the text has a character with several classes or some provider call produced a candidate; distinct by generated Coq term");
     if let Some(p) = &args.replay {
         let v: Value = serde_json::from_str(&std::fs::read_to_string(p).unwrap()).unwrap();
         let case = &v["case"];
+        if case["kind"] == "c13-length-probe" {
+            length_probe(&mut sink, args);
+            cleanup(args);
+            sink.finish();
+            return;
+        }
+        if case["huge_lengths"] == json!(false) {
+            ALLOW_HUGE.store(false, std::sync::atomic::Ordering::Relaxed);
+        }
         if case["kind"] == "c13-forms" {
             let mut rng = Rng::new(args.seed);
             println!("re-running the normalized-forms stream (implementation only); failing text was {}", case["text"]);
@@ -1034,17 +1214,33 @@ pub fn run(args: &Args) {
         let text = case["text"].as_str().unwrap().to_string();
         println!("text: {:?}", text);
         let mut rng = Rng::new(case["call_seed"].as_u64().unwrap_or(0));
-        let out = run_case(&cfg, &text, &mut rng, true);
+        // a step of a session over reused objects: first bring the objects into the state they had
+        let mut sess = Session::new(cfg.dict.as_ref().unwrap());
+        let in_session = case["session"].is_array();
+        if let Some(hist) = case["session"].as_array() {
+            for h in hist {
+                let (t, cs) = (h[0].as_str().unwrap().to_string(), h[1].as_u64().unwrap());
+                println!("earlier text of the session (same InputBuffer / tokenizer / morpheme list): {:?}", t);
+                let mut r = Rng::new(cs);
+                let _ = run_case_in(&cfg, &t, &mut r, false, Some(&mut sess));
+            }
+        }
+        let out = run_case_in(&cfg, &text, &mut rng, true, if in_session { Some(&mut sess) } else { None });
         for f in &out.fails {
             println!("implementation oracle: {}", f);
         }
         println!("Coq term:\n{}", out.term);
-        emit(&mut sink, out.desc.clone(), json!({"directed": directed, "call_seed": case["call_seed"]}), out);
+        let mut extra = json!({"directed": directed, "call_seed": case["call_seed"]});
+        if in_session {
+            extra["session"] = case["session"].clone();
+        }
+        emit(&mut sink, out.desc.clone(), extra, out);
         cleanup(args);
         sink.finish();
         return;
     }
     let mut rng = Rng::new(args.seed);
+    length_probe(&mut sink, args);
     // directed cases first (the shipped shape of the definitions; base + modifier + other class; double ZWJ; long run)
     let dcfg = gen_config(7, &args.work, 1);
     if let Some(e) = &dcfg.load_error {
@@ -1061,8 +1257,8 @@ pub fn run(args: &Args) {
             emit(&mut sink, out.desc.clone(), json!({"directed": d, "call_seed": cs}), out);
         }
     }
-    let nconfigs = args.n(250, 3000);
-    let per = 4;
+    let nconfigs = args.n(200, 2400);
+    let per = 5;
     for ci in 0..nconfigs {
         // interleaved (these cases are the expensive ones to evaluate; spread them over the shards):
         // runs of distinct characters (some around / above 64) x Regex providers over contiguous ranges of those runs
@@ -1077,12 +1273,37 @@ pub fn run(args: &Args) {
             continue;
         }
         sink.tag(&format!("providers={}", cfg.provs.iter().map(|p| match p { Prov::Mecab => "M", Prov::Simple(_) => "S", Prov::Regex { .. } => "R" }).collect::<String>()));
-        for _ in 0..per {
-            let text = gen_text(&mut rng, &cfg, 0);
+        // a session: the texts of one configuration go through the same InputBuffer / tokenizer / morpheme list, and their
+        // run structure changes from step to step (class runs, then single-character runs over the same positions, shorter
+        // and longer texts), so that anything an object keeps from an earlier text shows
+        let mut sess = Session::new(cfg.dict.as_ref().unwrap());
+        let mut lens: Vec<usize> = vec![];
+        for step in 0..per {
+            let mut text = gen_text(&mut rng, &cfg, 0);
+            if step >= 2 && rng.chance(2, 3) {
+                let n = usize::min(24, lens[step - 2] + rng.below(3) as usize).max(1);
+                if let Some(t) = singles_text(&mut rng, &cfg, n) {
+                    text = t;
+                    sink.tag("session_single_character_runs");
+                }
+            } else if step >= 1 && rng.chance(1, 4) {
+                // a proper prefix of the previous text
+                let prev: Vec<char> = sess.history.last().map(|h| h.0.chars().collect()).unwrap_or_default();
+                if prev.len() > 1 {
+                    text = prev[..1 + rng.below(prev.len() as u64 - 1) as usize].iter().collect();
+                }
+            }
+            lens.push(text.chars().count());
             let cs = rng.next();
             let mut cr = Rng::new(cs);
-            let out = run_case(&cfg, &text, &mut cr, false);
-            emit(&mut sink, out.desc.clone(), json!({"directed": 0, "call_seed": cs}), out);
+            let out = run_case_in(&cfg, &text, &mut cr, false, Some(&mut sess));
+            let hist: Vec<Value> = sess.history.iter().map(|(t, c)| json!([t, c])).collect();
+            let poisoned = out.tags.iter().any(|t| t.starts_with("tokenize_panics"));
+            emit(&mut sink, out.desc.clone(), json!({"directed": 0, "call_seed": cs, "session": hist}), out);
+            sess.history.push((text, cs));
+            if poisoned {
+                sess = Session::new(cfg.dict.as_ref().unwrap());
+            }
         }
     }
     normalized_forms_stream(&mut sink, &mut rng, args);
